@@ -10,6 +10,7 @@ package verifsync
 import (
 	"sort"
 	"sync"
+	_ "unsafe" // go:linkname (rule R11)
 )
 
 type Mutex struct {
@@ -118,6 +119,21 @@ var (
 	// Points counts the preemptions taken in the current run.
 	Points int
 )
+
+// Build rule R11 replaces the runtime's unseeded tie-break between fake timers of the same instant by a function of
+// these two variables (they live in the overlaid runtime/time.go).
+//
+//go:linkname rtTimerSeed runtime.verifTimerSeed
+var rtTimerSeed uint32
+
+//go:linkname rtTimerSeq runtime.verifTimerSeq
+var rtTimerSeq uint32
+
+// SeedTimers makes the order in which timers of one simulated instant fire a function of the run's PRNG value.
+func SeedTimers(seed uint64) {
+	rtTimerSeed = uint32((seed*0x9E3779B97F4A7C15 + 0x7F4A7C15) >> 32)
+	rtTimerSeq = 0
+}
 
 // SeedPoints arms the preemption points for one run: a switch is taken at a
 // point with probability 1/(mask+1); rate 0 turns them off.
